@@ -36,3 +36,5 @@ Definition C11_tie_lib_bits := @StbUser.tie_lib_bits.
 
 Definition C11_errcount_agrees_with_stb := @CmdLayer.errcount_agrees_with_stb.
 
+Definition C11_cmd_text_canonical := @CmdLayer.cmd_text_canonical.
+
